@@ -60,6 +60,12 @@ def native_check(cfg, env=None, seed=0, warm=False):
     par = C.np_params(rbm)
     vs, hs, T = _joint(par, pur)
     fails = []
+    # a single chain given as a 1-D state keeps its shape
+    for ow in (False, True):
+        v1 = torch.tensor(rng.integers(0, 2, size=(cfg["nv"],)), dtype=torch.double)
+        o1 = rbm.gibbs_steps(2, v1, overwrite=ow)
+        if tuple(o1.shape) != (cfg["nv"],) or not bool(((o1 == 0) | (o1 == 1)).all()):
+            fails.append(("gibbs_steps on a 1-D start state returns shape %s (expected (%d,)) or non-binary values" % (tuple(o1.shape), cfg["nv"]), None))
     V = torch.tensor(vs, dtype=torch.double)
     pi = T.sum(1)
     # conditionals
@@ -159,7 +165,8 @@ def replay(cfg, env):
 
 def bounded(tier, seed):
     n, bad = 0, []
-    cfgs = [{"rbm": "binary", "nv": 2, "nh": 3}, {"rbm": "binary", "nv": 3, "nh": 2}, {"rbm": "purification", "nv": 2, "nh": 2, "na": 2}]
+    cfgs = [{"rbm": "binary", "nv": 2, "nh": 3}, {"rbm": "binary", "nv": 3, "nh": 2}, {"rbm": "purification", "nv": 2, "nh": 2, "na": 2},
+            {"rbm": "binary", "nv": 1, "nh": 2}, {"rbm": "purification", "nv": 1, "nh": 1, "na": 2}]
     if tier != "quick":
         cfgs += [{"rbm": "binary", "nv": 4, "nh": 4}, {"rbm": "purification", "nv": 3, "nh": 3, "na": 3}, {"rbm": "purification", "nv": 4, "nh": 4, "na": 3}]
     laws = []
